@@ -8,7 +8,7 @@ pub fn spec() -> Spec {
     engine: "E1 rtps-core (scripted writers -> real reader; every datagram the reader node emits is captured at the UDPSender seam and decoded by the harness' independent RTPS decoder)",
     level: "exploration",
     rule: "one case = one seeded run of the scripted-writer scenario (heartbeats with any first/last/count, final flag set or not, windows up to 300 sequence numbers, GAPs, fragments, loss/dup/reorder); every ACKNACK/NACKFRAG emitted is checked against a reference model of what was delivered; non-trivial = at least one sample handed over; distinct = distinct fingerprint of the visited (received, partial, unavailable) state sequence",
-    quick_runs: 300_000,
+    quick_runs: 80_000,
     quick_secs: 60.0,
     thorough_runs: 12_000_000,
     thorough_secs: 900.0,
